@@ -28,7 +28,7 @@ package proxy
 //@ spec peerIP(hostport string) string
 //@ func (*requestContext).rewriteRequest$1
 //@   props C15
-//@   loop 0 invariant hset.n - old(hset.n) == mapnext.n - old(mapnext.n) && hdel.n == old(hdel.n) + 3
+//@   loop 0 invariant hset.n - atloop(hset.n) == mapnext.n - atloop(mapnext.n)
 //@   ensures hdel.n >= old(hdel.n) + 3 && hdel.arg1[old(hdel.n)] == "X-Forwarded-Method" && hdel.arg1[old(hdel.n) + 1] == "X-Forwarded-Uri" && hdel.arg1[old(hdel.n) + 2] == "X-Forwarded-Path"
 //@   assert at call Del#1@1a63ac6f.1: callarg0 == proxyReq.Out.Header && proxyReq.Out.URL == *targetURL
 //@   assert at call Del#2@0a79ddb2.1: callarg0 == proxyReq.Out.Header
